@@ -1,6 +1,7 @@
 import IncanModel.Driver.C04
 import IncanModel.Driver.C05
 import IncanModel.Driver.C07
+import IncanModel.Driver.C10
 import IncanModel.Driver.C19
 
 open Incan.Driver
@@ -10,6 +11,7 @@ def dispatch (line : String) : String :=
   | "c04" :: rest => handleC04 rest
   | "c05" :: rest => handleC05 rest
   | "c07" :: rest => handleC07 rest
+  | "c10" :: rest => handleC10 rest
   | "c19" :: rest => handleC19 rest
   | _ => "bad-op"
 
